@@ -267,3 +267,6 @@ def run(ctx):
     r4_1(ctx)
     r4_2(ctx)
     r4_3(ctx)
+    # "not absent at the moment of allocation" is decided through the resource state: FREE must exclude the resource's own absence
+    from .C10 import r10_2
+    r10_2(ctx)
